@@ -50,4 +50,25 @@ structure FsBinding where
   src : FsSrc
   deriving Repr
 
+/-- where the file reader takes the image object whose `get_fdata()` array it uses -/
+inductive ImgSrc where
+  | freshLoad     -- `im = load(<file>)` (nibabel.load) in the same call: a NEW image object, hence a new array buffer
+  | keepImages    -- image objects kept between calls (a nibabel image caches the array `get_fdata()` returned)
+  | other         -- anything else: not vouched for
+  deriving DecidableEq, Repr
+
+structure FdataSite where
+  key : String
+  how : String
+  src : ImgSrc
+  deriving Repr
+
+/-- a call of an FFT-type transform inside an analyzer; `lengthArg` = it is given a transform length (zero-padding /
+truncation) instead of working on exactly the samples of the series -/
+structure TransformCall where
+  key : String
+  fn : String
+  lengthArg : Bool
+  deriving Repr
+
 end Nitime.C15
